@@ -12,6 +12,7 @@ import (
 
 	"github.com/csgura/fp"
 	"github.com/csgura/fp/iterator"
+	"github.com/csgura/fp/lazy"
 	"github.com/csgura/fp/list"
 	"github.com/csgura/fp/ord"
 	"github.com/csgura/fp/seq"
@@ -166,6 +167,12 @@ func (t tcType[T]) run(out *Out, id, what string, vals []*AV) {
 			}
 		}
 		out.Ev("Eq", "ty", id, "cls", "eq", "vals", avs(vals), "m", m)
+		// a sequence against a proper prefix of ITSELF (same backing array): still decided by content and length
+		for i := range gv {
+			if pre, ok := tcPrefixOf(gv[i]); ok {
+				out.Ev("EqAlias", "ty", id, "a", t.av(gv[i]).tla(), "b", t.av(pre).tla(), "ab", t.eq.Eqv(gv[i], pre), "ba", t.eq.Eqv(pre, gv[i]), "hasheq", true)
+			}
+		}
 	case "hash":
 		if t.hash == nil {
 			return
@@ -195,6 +202,12 @@ func (t tcType[T]) run(out *Out, id, what string, vals []*AV) {
 		}
 		out.Ev("Eq", "ty", id, "cls", "hash", "vals", avs(vals), "m", m)
 		out.Ev("Hash", "ty", id, "vals", avs(vals), "hc", cls, "det", det)
+		for i := range gv {
+			if pre, ok := tcPrefixOf(gv[i]); ok {
+				out.Ev("EqAlias", "ty", id, "a", t.av(gv[i]).tla(), "b", t.av(pre).tla(), "ab", t.hash.Eqv(gv[i], pre), "ba", t.hash.Eqv(pre, gv[i]),
+					"hasheq", t.hash.Hash(gv[i]) == t.hash.Hash(pre))
+			}
+		}
 	case "ord":
 		if t.ord == nil {
 			return
@@ -487,6 +500,72 @@ func tcSort(out *Out, in [][2]int) {
 	}
 }
 
+// a proper prefix of a slice-kinded value that shares its backing array (false for other kinds and short values)
+func tcPrefixOf[T any](v T) (T, bool) {
+	rv := reflect.ValueOf(&v).Elem()
+	if rv.Kind() != reflect.Slice || rv.Len() < 2 {
+		return v, false
+	}
+	var out T
+	reflect.ValueOf(&out).Elem().Set(rv.Slice(0, rv.Len()-1))
+	return out, true
+}
+
+// the same three implementations over a nillable element type: *int under ord.Ptr (nil goes first); key -1 stands for nil
+func tcSortPtr(out *Out, in [][2]int) {
+	recs := make([]*int, len(in))
+	for i, p := range in {
+		if p[0] >= 0 {
+			v := p[0]
+			recs[i] = &v
+		}
+	}
+	o := ord.Ptr(lazy.Done[fp.Ord[int]](ord.Given[int]()))
+	key := func(p *int) int {
+		if p == nil {
+			return -1
+		}
+		return *p
+	}
+	pairs := func(rs []*int) [][2]int {
+		r := [][2]int{}
+		for _, x := range rs {
+			r = append(r, [2]int{key(x), 0})
+		}
+		return r
+	}
+	optp := func(o fp.Option[*int]) [][2]int {
+		if o.IsDefined() {
+			return [][2]int{{key(o.Get()), 0}}
+		}
+		return [][2]int{}
+	}
+	orig := append([]*int(nil), recs...)
+	for _, impl := range []string{"seq", "iterator", "list"} {
+		func() {
+			defer func() {
+				if r := recover(); r != nil {
+					out.Ev("Panic", "ty", "sortptr", "what", impl, "v", fmt.Sprint(r))
+				}
+			}()
+			var sorted []*int
+			var mn, mx fp.Option[*int]
+			switch impl {
+			case "seq":
+				sorted = seq.Sort(fp.Seq[*int](recs), o)
+				mn, mx = seq.Min(fp.Seq[*int](recs), o), seq.Max(fp.Seq[*int](recs), o)
+			case "iterator":
+				sorted = iterator.Sort(iterator.FromSeq(fp.Seq[*int](recs)), o)
+				mn, mx = iterator.Min(iterator.FromSeq(fp.Seq[*int](recs)), o), iterator.Max(iterator.FromSeq(fp.Seq[*int](recs)), o)
+			case "list":
+				sorted = list.Sort(list.FromSeq(fp.Seq[*int](recs)), o)
+				mn, mx = list.Min(list.FromSeq(fp.Seq[*int](recs)), o), list.Max(list.FromSeq(fp.Seq[*int](recs)), o)
+			}
+			out.Ev("Sort", "impl", impl+"/ptr", "in", pairs(orig), "out", pairs(sorted), "min", optp(mn), "max", optp(mx), "inafter", pairs(recs))
+		}()
+	}
+}
+
 type TcCase struct {
 	Ty   string   `json:"ty"`
 	What string   `json:"what"` // eq | hash | ord | clone | sort
@@ -520,6 +599,8 @@ func cmdTc(args []string) {
 		deadline(out, caseDeadline, func() {
 			if c.What == "sort" {
 				tcSort(out, c.In)
+			} else if c.What == "sortptr" {
+				tcSortPtr(out, c.In)
 			} else {
 				r, ok := tcRegistry[c.Ty]
 				if !ok {
